@@ -188,9 +188,9 @@ def run_mount(ctx, table, root, path, apps=None):
 
 
 HOST_PATTERNS = [r"example\.com:80", r"example\.com:443", r"example\.com", r"(www\.)?example\.com", r".*\.example\.com", r"api\.example\.com", r"example", r".*", r"",
-                 r"[a-z]+\.com", r"example\.com(:\d+)?", r"EXAMPLE\.COM", r"ex", r"com", r"e.*m", r"^example\.com$", r"static\..*", r"\w+\.example\.com", r"[^.]+\.example\.com"]
+                 r"[a-z]+\.com", r"example\.com(:\d+)?", r"EXAMPLE\.COM", r"ex", r"com", r"e.*m", r"^example\.com$", r"static\..*", r"\w+\.example\.com", r"[^.]+\.example\.com", r"example\.com\.", r"(www\.)?example\.com\.?"]
 HOSTS = ["example.com:80", "example.com:443", "example.com", "www.example.com", "API.example.com", "Example.Com", "api.example.com", "xexample.com", "example.comx", "example.com:8000", "", None, "EXAMPLE.COM",
-         "example", "static.example.com", "a.b.example.com", "example.com ", " example.com", "ex", "com", "api.example.com.evil.org", "caf\xe9.example.com", "\xfcber.example.com", "a" * 290 + ".example.com", "x" * 254 + ".com"]
+         "example", "static.example.com", "a.b.example.com", "example.com ", " example.com", "ex", "com", "api.example.com.evil.org", "caf\xe9.example.com", "\xfcber.example.com", "a" * 290 + ".example.com", "x" * 254 + ".com", "example.com.", "www.example.com.", "example.com..", ".example.com"]
 
 
 def build_host_apps(patterns):
